@@ -467,7 +467,7 @@ def rule_collision(ctx, rule='C01.COLLISION'):
         rets = [r for r in walk_own(lp) if isinstance(r, ast.Return)]
         if len(chk) == 1 and len(rets) == 1:
             conds = pr.control_conditions(chk[0], lp)
-            single = len(conds) == 1 and conds[0][1] and norm(conds[0][0]) == 'len(candidates) > 1'
+            single = len(conds) == 1 and conds[0][1] and q.cmp_matches(ctx, f, conds[0][0], 'len(candidates) > 1')
             # the compared hash comes from fs_tx_hash(tx_num of this candidate)
             other = chk[0].test.comparators[0] if norm(chk[0].test.left) == f.params[1] else chk[0].test.left
             fsd = [s for s in walk_own(lp) if isinstance(s, ast.Assign) and isinstance(s.value, ast.Call) and q.callee_name(ctx, f, s.value) == 'self.db.fs_tx_hash'
